@@ -12,7 +12,8 @@
 //   * in between (an entry point that increments a version without changing anything): model level only.
 // What the abstract model cannot know (iteration order of a hash table, capacity chosen by a growth) is read from
 // the real container after the call and written into the operation line.
-// VF_PART: 0 HashSet, 1 HashMap, 2 TreeSet, 6 TreeMultiSet / TreeMap, 3 HashMultiMap, 4 Array (index iterators) / SegmentedArray, 5 DataTable
+// VF_PART: 0 HashSet, 1 HashMap, 2 TreeSet, 6 TreeMultiSet / TreeMap, 3 HashMultiMap, 4 Array (index iterators) / SegmentedArray,
+//          5 DataTable (static columns, row numbers), 7 DataTable (dynamic columns)
 #ifndef VF_PART
 #define VF_PART 0
 #endif
@@ -819,7 +820,7 @@ struct TreeRun {
 		if (rng.below(2)) O(src).MergeTo(O(1 - src)); else O(1 - src).MergeFrom(O(src));
 		note(b);
 		Snap a = snap();
-		const char* path = b.k[src].empty() ? "empty source" : b.k[1 - src].empty() ? "swap when destination empty"
+		const char* path = b.k[src].empty() ? "empty source" : b.k[1 - src].empty() ? "destination empty"
 			: !a.root[src] ? "pvMergeFast" : a.k[src] == b.k[src] ? "item-wise, nothing moved" : "item-wise";
 		j.mut(std::string(src ? "MergeFrom(" : "MergeTo(") + path + ")");
 		j.line(fmt("merge %c", on(src)), "ok" + tail());
@@ -1090,7 +1091,7 @@ struct TreeRun {
 					std::string op = fmt("add %c %d %u %d", on(o), nslots, k + 1, d);
 					use({ nslots }, o, 0, false, true, true, true, true, [&] { It p = Ad::add(O(o), slots[nslots].it, k + 1, (int)rng.below(12)); store(d, p); return "ok " + desc(p); }, op); }
 				break; }
-			case 18: uAdd(h, o, d); break;
+			case 18: if (addFits(h, o)) uAdd(h, o, d); break;
 			case 19: mRemoveIf(o, 3, (uint32_t)rng.below(3)); break;
 			case 20: mInsertRange(o, { k, k + 3 }); break;
 			case 21: uExtract(h, o, d); break;
@@ -1100,13 +1101,28 @@ struct TreeRun {
 		}
 		c.stats.count("random histories");
 	}
-	// ResetKey in a random history must keep the order: only used when the neighbour keys leave room (keys are 10 + 3i, +1 fits)
-	void uResetKeyRandom(int h, int o) {
-		const Slot& sl = slots[h];
-		if (sl.kind == T_ELEM && !mods.stale(sl.cell, sl.born) && sl.cell == cellOf(o) && (sl.key % 3 != 1 || O(o).ContainsKey(sl.key + 1))) return;
-		if (sl.kind == T_ELEM && !mods.stale(sl.cell, sl.born) && sl.cell == cellOf(o) && !Ad::multi && O(o).ContainsKey(sl.key + 1)) return;
-		uResetKey(h, o);
+	// Random histories: Add(iterator, key) and ResetKey must keep the sequence ordered (these settings do not check it, and the
+	// model's sorted list would no longer describe the tree).  Decided from the real contents; a handle that is not live is
+	// rejected whatever the key.
+	bool live(int h, int o) { const Slot& sl = slots[h]; return sl.kind != T_NULL && !mods.stale(sl.cell, sl.born) && sl.cell == cellOf(o); }
+	static bool le(uint32_t a, uint32_t b) { return Ad::multi ? a <= b : a < b; }
+	bool addFits(int h, int o) {
+		if (!live(h, o)) return true;
+		std::vector<uint32_t> ks = keys(o);
+		uint32_t k = keyBefore(h, o);
+		size_t r = slots[h].rank;
+		if (r > ks.size()) return false;
+		return (r == 0 || le(ks[r - 1], k)) && (r == ks.size() || le(k, ks[r]));
 	}
+	bool resetFits(int h, int o) {
+		if (!live(h, o) || slots[h].kind != T_ELEM) return true;
+		std::vector<uint32_t> ks = keys(o);
+		uint32_t k = slots[h].key + 1;                    // the key uResetKey writes
+		size_t r = slots[h].rank;
+		if (r >= ks.size()) return false;
+		return (r == 0 || le(ks[r - 1], k)) && (r + 1 == ks.size() || le(k, ks[r + 1]));
+	}
+	void uResetKeyRandom(int h, int o) { if (resetFits(h, o)) uResetKey(h, o); }
 };
 
 template<typename Ad>
@@ -1753,7 +1769,7 @@ struct ArrRun {
 #endif
 
 // ============================================================================================================
-#if VF_PART == 5
+#if VF_PART == 5 || VF_PART == 7
 // ---------------------------------------------------------------- DataTable: row references, selections, hash pointers / bounds
 // Two tables of one type (unique hash index on column a, multi hash index on column b).  Column `id` holds the identity
 // of the raw block as the model counts it (table A: 0, 1, …; table B: 1000000, …); contents are printed as id:a:b in row order.
@@ -2332,6 +2348,7 @@ int main(int argc, char** argv) {
 	}
 #elif VF_PART == 5
 	runTable<CLStatic>(c, rng, "table_static_rownumbers", "DataTable<static columns, keepRowNumber>");
+#elif VF_PART == 7
 	runTable<CLDynamic>(c, rng, "table_dynamic_nonumbers", "DataTable<dynamic columns, no row numbers>");
 #endif
 	return c.finish();
